@@ -5,16 +5,16 @@ use crate::swiftness_transcript::transcript::*;
 use super::{config::Config, types::Commitment};
 verus! {
 broadcast use crate::prelude::group_felt;
-//@repo crates/commitment/src/vector/commit.rs fn vector_commit props=C08
+//@repo crates/commitment/src/vector/commit.rs fn vector_commit props=C01,C02,C08
 pub fn vector_commit(
     transcript: &mut Transcript,
     unsent_commitment: Felt,
     config: Config,
 ) -> (r: Commitment)
     ensures
-        final(transcript).digest@ == ts_absorb1(old(transcript).digest@, unsent_commitment@), // [C08:commitment-root-absorbed]
+        final(transcript).digest@ == ts_absorb1(old(transcript).digest@, unsent_commitment@), // [C01,C02,C08:commitment-root-absorbed]
         final(transcript).counter@ == 0,
-        r.commitment_hash == unsent_commitment, r.config == config, // [C08:commitment-keeps-root-and-config]
+        r.commitment_hash == unsent_commitment, r.config == config, // [C01,C02,C08:commitment-keeps-root-and-config]
 {
     transcript.read_felt_from_prover(&unsent_commitment);
     Commitment { commitment_hash: unsent_commitment, config }
